@@ -10,7 +10,7 @@
 From Coq Require Import List ZArith NArith String Bool Lia.
 From SCC Require Import Base.Sexp Lang.SynUtil Lang.FunSyn Lang.FunTy Lang.CoreSyn.
 From SCC Require Import Sem.AxSem Sem.FunSem Sem.FsCheck Sem.CoreCheck Model.Fun2Core Model.Fun2CoreGuard Model.Fun2CoreTyGuard.
-From SCC Require Import Proof.Fun2CoreProof Proof.Fun2CoreInv Proof.CoreTyRules Proof.Fun2CoreTyBase Proof.Fun2CoreTyScope.
+From SCC Require Import Proof.Fun2CoreProof Proof.Fun2CoreInv Proof.Fun2CoreProg Proof.CoreTyRules Proof.Fun2CoreTyBase Proof.Fun2CoreTyScope Proof.Fun2CoreTyEntry.
 Import ListNotations.
 Open Scope string_scope.
 Open Scope list_scope.
@@ -336,40 +336,85 @@ Section Total.
 End Total.
 
 (* ---------- definitions and programs ---------- *)
-Lemma compile_defs_total : forall p defs ul front back,
-  (forall d, In d defs -> def_tyguard p (cdata_of p) (ccodata_of p) d = true) ->
-  exists res, compile_defs false false defs (ccodata_of p) ul front back = Ok res.
+Lemma compile_main_total : forall p d ul bty,
+  tg p (cdata_of p) (ccodata_of p) (compile_ctx (fdctx d)) (fdbody d) = true -> fterm_type (fdbody d) = Some bty ->
+  exists g ul', compile_main false d (ccodata_of p) ul = Ok (g, ul').
 Proof.
-  intros p. induction defs as [|d r IH]; intros ul front back Hg; simpl; [eauto|].
-  unfold compile_main_group; cbn [andb].
-  pose proof (Hg d (or_introl eq_refl)) as Hd. unfold def_tyguard in Hd.
-  apply andb_prop in Hd. destruct Hd as [Hd Hret].
-  apply andb_prop in Hd. destruct Hd as [_ Htg].
-  assert (Hbty : exists bty, fterm_type (fdbody d) = Some bty).
-  { destruct (String.eqb (fdname d) "main"); [|apply andb_prop in Hret; destruct Hret as [Hret _]];
-      unfold has_ty, tyo in Hret; destruct (fterm_type (fdbody d)) as [bty|]; eauto; discriminate. }
-  destruct Hbty as [bty Ebty].
+  intros p d ul bty Htg Ebty.
   set (B := bnd (fdbody d)).
   assert (HB : incl B (used_binders (fdbody d) (fvars (fdctx d)))).
   { intros x Hx. eapply (tg_bnd_used p (cdata_of p) (ccodata_of p)); eassumption. }
-  destruct (String.eqb (fdname d) "main").
-  - unfold compile_main, run_def_body. rewrite Ebty.
-    match goal with |- context [mbind ?m ?f ?st] => destruct (tot_bind B _ _ m f (tot_fresh_in_vars B "x")
-       (fun x => proj1 (total_all p (cdata_of p) (ccodata_of p) (ccodata_of p) (fdname d) B (fdbody d) (incl_refl _)) _ _ Htg) st HB) as [body [st' [E _]]] end.
-    rewrite E. simpl. apply IH. intros d0 Hd0. apply Hg. right. exact Hd0.
-  - unfold compile_def, run_def_body. rewrite Ebty.
-    match goal with |- context [mbind ?m ?f ?st] =>
-      assert (Ht : tot B (mbind m f)) end.
-    { apply tot_bind; [apply tot_fresh_in_vars|]. intros a. apply tot_bind; [|intros; apply tot_ret].
-      eapply (proj1 (total_all p (cdata_of p) (ccodata_of p) (ccodata_of p) (fdname d) B (fdbody d) (incl_refl _))). exact Htg. }
-    match goal with |- context [mbind ?m ?f ?st] => destruct (Ht st HB) as [[a body] [st' [E _]]] end.
-    rewrite E. simpl. apply IH. intros d0 Hd0. apply Hg. right. exact Hd0.
+  unfold compile_main, run_def_body. rewrite Ebty.
+  match goal with |- context [mbind ?m ?f ?st] => destruct (tot_bind B _ _ m f (tot_fresh_in_vars B "x")
+     (fun x => proj1 (total_all p (cdata_of p) (ccodata_of p) (ccodata_of p) (fdname d) B (fdbody d) (incl_refl _)) _ _ Htg) st HB) as [body [st' [E _]]] end.
+  rewrite E. simpl. eauto.
+Qed.
+Lemma compile_def_total : forall p d ul bty,
+  tg p (cdata_of p) (ccodata_of p) (compile_ctx (fdctx d)) (fdbody d) = true -> fterm_type (fdbody d) = Some bty ->
+  exists g ul', compile_def false d (ccodata_of p) ul = Ok (g, ul').
+Proof.
+  intros p d ul bty Htg Ebty.
+  set (B := bnd (fdbody d)).
+  assert (HB : incl B (used_binders (fdbody d) (fvars (fdctx d)))).
+  { intros x Hx. eapply (tg_bnd_used p (cdata_of p) (ccodata_of p)); eassumption. }
+  unfold compile_def, run_def_body. rewrite Ebty.
+  match goal with |- context [mbind ?m ?f ?st] =>
+    assert (Ht : tot B (mbind m f)) end.
+  { apply tot_bind; [apply tot_fresh_in_vars|]. intros a. apply tot_bind; [|intros; apply tot_ret].
+    eapply (proj1 (total_all p (cdata_of p) (ccodata_of p) (ccodata_of p) (fdname d) B (fdbody d) (incl_refl _))). exact Htg. }
+  match goal with |- context [mbind ?m ?f ?st] => destruct (Ht st HB) as [[a body] [st' [E _]]] end.
+  rewrite E. simpl. eauto.
+Qed.
+
+(* the definitions that come first (fix f929eb7): when main is called, the entry point and main compiled by compile_def *)
+Lemma compile_main_group_total : forall p d ul,
+  def_tyguard p (cdata_of p) (ccodata_of p) d = true -> fdname d = "main" -> ffind_def p (fdname d) = Some d ->
+  exists g ul', compile_main_group false (calls_main_prog p) d (ccodata_of p) ul = Ok (g, ul').
+Proof.
+  intros p d ul Hd Em Hfind. unfold def_tyguard in Hd. rewrite Em in Hd. cbn [String.eqb Ascii.eqb Bool.eqb] in Hd.
+  apply andb_prop in Hd. destruct Hd as [Hd Hret]. apply andb_prop in Hret. destruct Hret as [Hret Hcalled].
+  apply andb_prop in Hd. destruct Hd as [Hd Htg]. apply andb_prop in Hd. destruct Hd as [Hnd Hctd].
+  assert (Hbty : exists bty, fterm_type (fdbody d) = Some bty).
+  { unfold has_ty, tyo in Hret; destruct (fterm_type (fdbody d)) as [bty|]; eauto; discriminate. }
+  destruct Hbty as [bty Ebty].
+  unfold compile_main_group. rewrite andb_true_r. destruct (calls_main_prog p) eqn:Hcm.
+  - cbn [negb orb] in Hcalled. apply ceq_ty in Hcalled.
+    destruct (fresh_name ul "main") as [nm ul1].
+    assert (Htge : tg p (cdata_of p) (ccodata_of p) (compile_ctx (fdctx (entry_fdef d nm))) (fdbody (entry_fdef d nm)) = true).
+    { refine (entry_tg p _ _ d nm Hnd Hctd Hfind Em Hcm _). rewrite Hcalled. reflexivity. }
+    destruct (compile_main_total p (entry_fdef d nm) ul1 (fdret d) Htge eq_refl) as [e [ule Ee]]. rewrite Ee. cbn [rbind snd fst].
+    destruct (compile_def_total p d ule bty Htg Ebty) as [m [ulm Em']]. rewrite Em'. cbn [rbind]. eauto.
+  - eapply compile_main_total; eassumption.
+Qed.
+
+Lemma compile_defs_total : forall p defs ul front back,
+  (forall d, In d defs -> def_tyguard p (cdata_of p) (ccodata_of p) d = true) ->
+  (forall d, In d defs -> ffind_def p (fdname d) = Some d) ->
+  exists res, compile_defs false (calls_main_prog p) defs (ccodata_of p) ul front back = Ok res.
+Proof.
+  intros p. induction defs as [|d r IH]; intros ul front back Hg Hf; simpl; [eauto|].
+  pose proof (Hg d (or_introl eq_refl)) as Hd.
+  destruct (String.eqb (fdname d) "main") eqn:Em.
+  - apply String.eqb_eq in Em.
+    destruct (compile_main_group_total p d ul Hd Em (Hf d (or_introl eq_refl))) as [g [ul' E]]. rewrite E. simpl.
+    apply IH; intros d0 Hd0; [apply Hg | apply Hf]; right; exact Hd0.
+  - unfold def_tyguard in Hd. rewrite Em in Hd.
+    apply andb_prop in Hd. destruct Hd as [Hd Hret].
+    apply andb_prop in Hd. destruct Hd as [_ Htg].
+    assert (Hbty : exists bty, fterm_type (fdbody d) = Some bty).
+    { apply andb_prop in Hret; destruct Hret as [Hret _];
+      unfold has_ty, tyo in Hret; destruct (fterm_type (fdbody d)) as [bty|]; eauto; discriminate. }
+    destruct Hbty as [bty Ebty].
+    destruct (compile_def_total p d ul bty Htg Ebty) as [g [ul' E]]. rewrite E. simpl.
+    apply IH; intros d0 Hd0; [apply Hg | apply Hf]; right; exact Hd0.
 Qed.
 
 Theorem fun2core_total_guarded : forall p, prog_tyguard p = true -> exists c, compile_prog p = Ok c.
 Proof.
   intros p Hg. unfold prog_tyguard in Hg. apply andb_prop in Hg. destruct Hg as [Hd Hg]. rewrite forallb_forall in Hg.
-  apply andb_prop in Hd. destruct Hd as [_ Hncm]. apply negb_true_iff in Hncm.
-  unfold compile_prog, compile_prog_gen. fold (ccodata_of p). rewrite Hncm.
-  destruct (compile_defs_total p (fcpdefs p) (map fdname (fcpdefs p)) [] [] Hg) as [res E]. rewrite E. simpl. eauto.
+  assert (Hnd : NoDup (map fdname (fcpdefs p))).
+  { unfold decls_tyguard in Hd. apply andb_prop in Hd. destruct Hd as [_ Hd]. apply nodup_str_nd0. exact Hd. }
+  unfold compile_prog, compile_prog_gen. fold (ccodata_of p).
+  destruct (compile_defs_total p (fcpdefs p) (map fdname (fcpdefs p)) [] [] Hg (fun d Hd0 => find_def_nodup p d Hnd Hd0)) as [res E].
+  rewrite E. simpl. eauto.
 Qed.
